@@ -416,6 +416,11 @@ theorem mgRun_fixed_phys (r : Run) (l0 : Lvl ℂ) {a b : ℝ} (h : Phys l0.g l0.
     (hS : Solved l0) : ∃ zs, (mgRun r l0).1 = zs ++ [l0] ∧ ∀ z ∈ zs, z.e = zeroEF :=
   mgRun_fixed r l0 hS (fun _ _ hr => allInj_phys (h.reach hr))
 
+/-- … and the call ends with exactly the fine level it was given (balanced trace). -/
+theorem mgRun_fixed_exact_phys (r : Run) (l0 : Lvl ℂ) {a b : ℝ} (h : Phys l0.g l0.m a b)
+    (hS : Solved l0) : (mgRun r l0).1 = [l0] :=
+  mgRun_fixed_exact r l0 hS (fun _ _ hr => allInj_phys (h.reach hr))
+
 /-! ## non-vacuity: the frequency-domain and the Laplace-domain half-planes -/
 
 example : Phys (⟨2, 2, 2, fun _ => 1, fun _ => 1, fun _ => 1⟩ : Grid ℂ)
